@@ -18,6 +18,21 @@ facilities/decentralized_environmental_notification_service/denm_transmission_ma
 
 `Props/C17.lean` proves `allocLayout ∈ okLayouts ∧ allocModulus = 65536 ∧ strayCounterAccesses = 0` by `decide`:
 moving the read or the write-back out of the `with` section re-opens that proof obligation.
+
+Round 4 - the REPETITION BODY (`analyse_body`): the methods reachable from `request_denm_sending`,
+`trigger_denm_messages`, `send_collision_risk_warning_denm` through `self.<method>` (calls and references such as
+`Thread(target=self.trigger_denm_messages)`), `allocate_sequence_number` excepted (it has its own facts above):
+* `bodySharedStores` - stores (assignment / augmented assignment / `del` / `setattr`) through an attribute or subscript
+  chain whose root is NOT a local bound in the same function (i.e. `self`, a parameter, a global, the class) plus
+  `global` / `nonlocal` declarations: state that outlives the repetition and is visible to the other events' threads.
+* `bodySelfAttrs` - the instance attributes read there (methods of the class excluded), sorted.
+* `transmitArgs` - one code per `self.transmit_denm(<arg>)`: 0 = <arg> is a local bound, in the SAME loop body (the
+  function body when the call is not in a loop), to a fresh `DecentralizedEnvironmentalNotificationMessage()`;
+  1 = such a local bound outside the enclosing loop (one object per event); 2 = an expression rooted at `self`;
+  3 = anything else.
+`Props/C17.lean` (`repetition_message_tied`) proves by `decide` that these say "the message object handed over in a
+repetition is local to that repetition"; seeded change C17-m5 (one `self.new_denm` refilled by every repetition of
+every event) yields stores > 0, `new_denm` among the attributes read and code 2.
 """
 from __future__ import annotations
 
@@ -103,9 +118,142 @@ def analyse():
     return {"layout": layout, "modulus": modulus, "stray": stray}
 
 
+ENTRY = ("request_denm_sending", "trigger_denm_messages", "send_collision_risk_warning_denm")
+MSG_CLASS = "DecentralizedEnvironmentalNotificationMessage"
+TRANSMIT = "transmit_denm"
+
+
+def _root(node):
+    """root Name of an attribute / subscript chain (None if the chain starts at a call or literal)"""
+    while isinstance(node, (ast.Attribute, ast.Subscript, ast.Starred)):
+        node = node.value
+    return node.id if isinstance(node, ast.Name) else None
+
+
+def _locals_bound(fn):
+    """names bound by plain assignment / for / with / except / comprehension inside `fn` (parameters are NOT locals
+    in this sense: what they refer to belongs to the caller)"""
+    out = set()
+    for n in ast.walk(fn):
+        if isinstance(n, ast.Name) and isinstance(n.ctx, ast.Store):
+            out.add(n.id)
+        elif isinstance(n, ast.ExceptHandler) and n.name:
+            out.add(n.name)
+    return out
+
+
+def _is_fresh_msg(value):
+    return (isinstance(value, ast.Call) and not value.args and not value.keywords
+            and ((isinstance(value.func, ast.Name) and value.func.id == MSG_CLASS)
+                 or (isinstance(value.func, ast.Attribute) and value.func.attr == MSG_CLASS)))
+
+
+def _bindings(stmts, name):
+    """assignments `name = <value>` directly in this statement list or in its non-loop compound statements
+    (try / if / with bodies belong to the same repetition; nested loops and functions do not)"""
+    out = []
+    for st in stmts:
+        if isinstance(st, ast.Assign) and any(isinstance(t, ast.Name) and t.id == name for t in st.targets):
+            out.append(st.value)
+        elif isinstance(st, ast.AnnAssign) and isinstance(st.target, ast.Name) and st.target.id == name and st.value is not None:
+            out.append(st.value)
+        elif isinstance(st, (ast.Try, ast.If, ast.With)):
+            for field in ("body", "orelse", "finalbody"):
+                out += _bindings(getattr(st, field, []) or [], name)
+            for h in getattr(st, "handlers", []) or []:
+                out += _bindings(h.body, name)
+    return out
+
+
+def _transmit_codes(fn):
+    """code of the argument of every `self.transmit_denm(..)` in `fn` (see module docstring)"""
+    codes = []
+
+    def visit(stmts, loop_body):
+        for st in stmts:
+            if isinstance(st, (ast.For, ast.While, ast.AsyncFor)):
+                visit(st.body, st.body)
+                visit(st.orelse, loop_body)
+                continue
+            if isinstance(st, (ast.FunctionDef, ast.AsyncFunctionDef, ast.ClassDef)):
+                continue
+            for field in ("body", "orelse", "finalbody"):
+                sub = getattr(st, field, None)
+                if isinstance(sub, list) and sub and isinstance(sub[0], ast.stmt):
+                    visit(sub, loop_body)
+            for h in getattr(st, "handlers", []) or []:
+                visit(h.body, loop_body)
+            own = [st] if not hasattr(st, "body") else [getattr(st, f) for f in ("test", "iter", "items") if hasattr(st, f)]
+            for part in own:
+                for sub in (part if isinstance(part, list) else [part]):
+                    for n in ast.walk(sub):
+                        if isinstance(n, ast.Call) and _is_self_attr(n.func, TRANSMIT):
+                            codes.append(classify(n, loop_body))
+
+    def classify(call, loop_body):
+        if len(call.args) != 1 or call.keywords:
+            return 3
+        arg = call.args[0]
+        if isinstance(arg, ast.Name):
+            inner = _bindings(loop_body, arg.id)
+            every = [v for st in ast.walk(fn) if isinstance(st, ast.Assign)
+                     for t in st.targets if isinstance(t, ast.Name) and t.id == arg.id for v in [st.value]]
+            if every and all(_is_fresh_msg(v) for v in every):
+                return 0 if len(inner) == len(every) else 1
+            return 3
+        return 2 if _root(arg) == "self" else 3
+
+    visit(fn.body, fn.body)
+    return codes
+
+
+def analyse_body():
+    tree = ast.parse(gen_lean.src(FILE))
+    cls = next((n for n in tree.body if isinstance(n, ast.ClassDef) and n.name == CLASS), None)
+    if cls is None:
+        raise ValueError(f"class {CLASS} not found in {FILE}")
+    fns = {n.name: n for n in cls.body if isinstance(n, (ast.FunctionDef, ast.AsyncFunctionDef))}
+    missing = [e for e in ENTRY if e not in fns]
+    if missing:
+        raise ValueError(f"{CLASS}: entry point(s) {missing} not found")
+    reach, todo = [], list(ENTRY)
+    while todo:
+        name = todo.pop(0)
+        if name in reach or name in ("allocate_sequence_number", "__init__"):
+            continue
+        reach.append(name)
+        for n in ast.walk(fns[name]):
+            if _is_self_attr_any(n) and n.attr in fns:
+                todo.append(n.attr)
+    stores, attrs, codes = 0, set(), []
+    for name in reach:
+        fn = fns[name]
+        local = _locals_bound(fn)
+        for n in ast.walk(fn):
+            if isinstance(n, (ast.Global, ast.Nonlocal)):
+                stores += 1
+            elif isinstance(n, (ast.Attribute, ast.Subscript)) and isinstance(n.ctx, (ast.Store, ast.Del)):
+                r = _root(n)
+                if r is None or r not in local:
+                    stores += 1
+            elif isinstance(n, ast.Call) and isinstance(n.func, ast.Name) and n.func.id in ("setattr", "delattr"):
+                r = _root(n.args[0]) if n.args else None
+                if r is None or r not in local:
+                    stores += 1
+            if _is_self_attr_any(n) and n.attr not in fns:
+                attrs.add(n.attr)
+        codes += _transmit_codes(fn)
+    return {"reach": reach, "stores": stores, "attrs": sorted(attrs), "transmit": codes}
+
+
+def _is_self_attr_any(node):
+    return isinstance(node, ast.Attribute) and isinstance(node.value, ast.Name) and node.value.id == "self"
+
+
 @gen_lean.register(props=["C17"])
 def gen_denm():
     info = analyse()
+    body_info = analyse_body()
     body = "namespace Generated.Denm\n"
     body += ("/-- `DENMTransmissionManagement.allocate_sequence_number`, statement by statement (harness/gen_denm.py):\n"
              "    0 acq `with self._sequence_number_lock:`, 1 rel, 2 `<local> = self.sequence_number`,\n"
@@ -116,9 +264,20 @@ def gen_denm():
     body += ("/-- `self.sequence_number` accesses of the transmission management outside `__init__` and\n"
              "    `allocate_sequence_number` -/\n")
     body += f"def strayCounterAccesses : Nat := {info['stray']}\n"
+    body += ("/-- repetition body = methods reachable from request_denm_sending / trigger_denm_messages /\n"
+             f"    send_collision_risk_warning_denm through `self.<method>`: {', '.join(body_info['reach'])}.\n"
+             "    Stores through `self` / a parameter / a global (attribute or subscript chains not rooted at a local of the\n"
+             "    same function), `setattr`, `global` / `nonlocal` declarations -/\n")
+    body += f"def bodySharedStores : Nat := {body_info['stores']}\n"
+    body += "/-- instance attributes read in the repetition body (methods of the class excluded) -/\n"
+    body += "def bodySelfAttrs : List String := [" + ", ".join('"%s"' % a for a in body_info["attrs"]) + "]\n"
+    body += ("/-- argument of every `self.transmit_denm(..)`: 0 local bound in the same loop body to a fresh\n"
+             f"    `{MSG_CLASS}()`, 1 such a local bound outside the loop, 2 rooted at `self`, 3 anything else -/\n")
+    body += f"def transmitArgs : List Nat := {gen_lean.lean_nat_list(body_info['transmit'])}\n"
     body += "end Generated.Denm\n"
     gen_lean.write_if_changed("Denm.lean", body)
 
 
 if __name__ == "__main__":
     print(analyse())
+    print(analyse_body())
